@@ -225,28 +225,36 @@ Fixpoint match_spelling (sp : list (string * phase)) (l : chars) : option (phase
   end.
 Definition skip_sep (l : chars) : chars :=
   match l with c :: r => if is_sep c then r else l | [] => l end.
-(* [-_.]?(?P<n>[0-9]+)?  — greedy; see DESIGN for why greedy is complete here *)
-Definition opt_sep_num (l : chars) : N * chars :=
-  let l' := skip_sep l in
-  let '(ds, r) := span is_digit l' in
-  match ds with
-  | [] => (0, l')
-  | _ => (num_of ds, r)
-  end.
-(* [-_.]?(letters)[-_.]?(digits)? *)
-Definition tagged (sp : list (string * phase)) (l : chars) : option (tag * chars) :=
+(* The pattern is matched with the regex engine's priorities: every optional piece yields its
+   alternatives in the order the engine tries them, and the caller takes the first candidate whose
+   remainder satisfies what follows the pattern (end of text, ".*", ...). *)
+(* [-_.]?(?P<n>[0-9]+)? *)
+Definition opt_sep_num (l : chars) : list (N * chars) :=
+  let with_sep :=
+    match l with
+    | c :: r => if is_sep c then
+                  let '(ds, r') := span is_digit r in
+                  match ds with [] => [(0, r)] | _ => [(num_of ds, r')] end
+                else []
+    | [] => [] end in
+  let '(ds, r') := span is_digit l in
+  with_sep ++ match ds with [] => [(0, l)] | _ => [(num_of ds, r')] end.
+(* [-_.]?(letters)[-_.]?(digits)? ; the group is optional: absent is the last alternative *)
+Definition tagged (sp : list (string * phase)) (l : chars) : list (tag * chars) :=
   match match_spelling sp (skip_sep l) with
-  | Some (p, r) => let '(n, r') := opt_sep_num r in Some (mkTag p n, r')
-  | None => None
+  | Some (p, r) => map (fun '(n, r') => (mkTag p n, r')) (opt_sep_num r)
+  | None => []
   end.
-Definition post_group (l : chars) : option (tag * chars) :=
+Definition post_group (l : chars) : list (tag * chars) :=
   match l with
   | c :: r =>
-      if (code c =? 45) && match r with d :: _ => is_digit d | [] => false end
-      then let '(ds, r') := span is_digit r in Some (mkTag PPost (num_of ds), r')
-      else tagged post_spellings l
-  | [] => None
+      (if (code c =? 45) && match r with d :: _ => is_digit d | [] => false end
+       then let '(ds, r') := span is_digit r in [(mkTag PPost (num_of ds), r')]
+       else []) ++ tagged post_spellings l
+  | [] => []
   end.
+Definition opt_group (alts : list (tag * chars)) (r : chars) : list (option tag * chars) :=
+  map (fun '(t, r') => (Some t, r')) alts ++ [(None, r)].
 (* [0-9]+(?:\.[0-9]+)* ; fuel = length of input *)
 Fixpoint release_tail (fuel : nat) (l : chars) : list N * chars :=
   match fuel with
@@ -276,7 +284,6 @@ Fixpoint local_tail (fuel : nat) (l : chars) : list chars * chars :=
   end.
 Definition mk_lseg (seg : chars) : lseg :=
   if forallb is_digit seg then LNum (num_of seg) else LStr (string_of_list_ascii (map lower seg)).
-
 Definition strip_v (l : chars) : chars :=                                   (* v? *)
   match l with c :: r => if code c =? 118 then r else l | [] => l end.
 (* optional epoch 'digits !', given the leading digits already split off *)
@@ -286,42 +293,53 @@ Definition epoch_split (ds r : chars) : N * chars * chars :=
                else (0, ds, r)
   | [] => (0, ds, r)
   end.
-Definition opt_group (g : chars -> option (tag * chars)) (r : chars) : option tag * chars :=
-  match g r with Some (t, r') => (Some t, r') | None => (None, r) end.
-(* optional local label: '+' alnum-run (sep alnum-run)... ; None = a '+' with nothing usable after it *)
-Definition local_group (r : chars) : option (option (list lseg) * chars) :=
+(* optional local label: '+' alnum-run (sep alnum-run)... *)
+Definition local_group (r : chars) : list (option (list lseg) * chars) :=
   match r with
   | c :: r' =>
     if code c =? 43 (* + *) then
       let '(seg, r'') := span is_alnum r' in
       match seg with
-      | [] => None
+      | [] => [(None, r)]
       | _ => let '(segs, r3) := local_tail (List.length r'') r'' in
-             Some (Some (map mk_lseg (seg :: segs)), r3)
+             [(Some (map mk_lseg (seg :: segs)), r3); (None, r)]
       end
-    else Some (None, r)
-  | [] => Some (None, r)
+    else [(None, r)]
+  | [] => [(None, r)]
   end.
 
-Definition parse_chars (orig : string) (l0 : chars) : option version :=
-  let l := strip_v (drop_spaces (map lower l0)) in
+(* one way of matching VERSION_PATTERN at the start of the text, and what is left *)
+Record cand := mkC { c_e : N; c_rel : release; c_pre : option tag; c_post : option tag; c_dev : option tag;
+                     c_local : option (list lseg); c_rest : chars }.
+(* l is lower-cased *)
+Definition match_version (l : chars) : list cand :=
+  let l := strip_v l in
   let '(ds, r) := span is_digit l in
   match ds with
-  | [] => None
+  | [] => []
   | _ =>
     let '(e, ds, r) := epoch_split ds r in
     match ds with
-    | [] => None
+    | [] => []
     | _ =>
       let '(more, r) := release_tail (List.length r) r in
-      let '(p, r) := opt_group (tagged pre_spellings) r in
-      let '(po, r) := opt_group post_group r in
-      let '(d, r) := opt_group (tagged dev_spellings) r in
-      match local_group r with
-      | None => None
-      | Some (lo, r) => if all_space r then Some (mkV e (num_of ds :: more) p po d lo orig) else None
-      end
+      flat_map (fun '(p, r) =>
+        flat_map (fun '(po, r) =>
+          flat_map (fun '(d, r) =>
+            map (fun '(lo, r) => mkC e (num_of ds :: more) p po d lo r) (local_group r))
+            (opt_group (tagged dev_spellings r) r))
+          (opt_group (post_group r) r))
+        (opt_group (tagged pre_spellings r) r)
     end
+  end.
+Definition version_of_cand (c : cand) (txt : string) : version :=
+  mkV (c_e c) (c_rel c) (c_pre c) (c_post c) (c_dev c) (c_local c) txt.
+
+(* PEP440Parser._regex: ^\s* VERSION_PATTERN \s*$ *)
+Definition parse_chars (orig : string) (l0 : chars) : option version :=
+  match find (fun c => all_space (c_rest c)) (match_version (drop_spaces (map lower l0))) with
+  | Some c => Some (version_of_cand c orig)
+  | None => None
   end.
 Definition is_ascii_str (s : string) : bool := forallb (fun c => code c <? 128) (lchars s).
 Definition parse (s : string) : option version := parse_chars s (lchars s).
